@@ -243,6 +243,9 @@ type parser struct {
 	i    int
 	// CheckFuncs: reject unknown function names and wrong argument counts
 	checkFuncs bool
+	// allowSeq: accept the package's documented extension p/(s1, s2, ...) — a
+	// parenthesised, comma-separated list of steps in step position
+	allowSeq bool
 }
 
 type parseErr struct{ msg string }
@@ -280,7 +283,18 @@ func Parse(s string) (e gen.Expr, err error) {
 	return ParseTokens(toks)
 }
 
-func ParseTokens(toks []Tok) (e gen.Expr, err error) {
+// ParseExt is Parse plus the documented sequence extension p/(s1, s2, ...).
+func ParseExt(s string) (gen.Expr, error) {
+	toks, terr := Tokenize(s)
+	if terr != nil {
+		return nil, terr
+	}
+	return parseTokens(toks, true)
+}
+
+func ParseTokens(toks []Tok) (e gen.Expr, err error) { return parseTokens(toks, false) }
+
+func parseTokens(toks []Tok, ext bool) (e gen.Expr, err error) {
 	defer func() {
 		if r := recover(); r != nil {
 			if pe, ok := r.(parseErr); ok {
@@ -290,7 +304,7 @@ func ParseTokens(toks []Tok) (e gen.Expr, err error) {
 			panic(r)
 		}
 	}()
-	p := &parser{toks: toks, checkFuncs: true}
+	p := &parser{toks: toks, checkFuncs: true, allowSeq: ext}
 	if len(toks) == 0 {
 		p.fail("empty expression")
 	}
@@ -404,6 +418,23 @@ func (p *parser) relPath(path *gen.Path) {
 			path.Steps = append(path.Steps, gen.DSlash())
 		default:
 			return
+		}
+		if p.allowSeq && p.peek().Kind == "(" {
+			p.i++
+			seq := gen.Step{}
+			for {
+				if !p.startsStep() {
+					p.fail("expected a location step inside a sequence, found %s %q", p.peek().Kind, p.peek().Text)
+				}
+				seq.Seq = append(seq.Seq, p.step())
+				if p.peek().Kind != "," {
+					break
+				}
+				p.i++
+			}
+			p.expect(")")
+			path.Steps = append(path.Steps, seq)
+			continue
 		}
 		if !p.startsStep() {
 			p.fail("expected a location step after '/', found %s %q", p.peek().Kind, p.peek().Text)
